@@ -3,6 +3,8 @@
 package main
 
 import (
+	"crypto/sha256"
+	"encoding/hex"
 	"fmt"
 	"net"
 	"net/netip"
@@ -535,4 +537,155 @@ func (sb *sbox) quiescentC13() {
 			}
 		}
 	}
+}
+
+// quiescentC04: the layer-2 decision of this node, for every Service, against the statement of C04
+// evaluated on the resources: eligible = live speaker (every known node when membership tracking is off),
+// selected by an L2Advertisement of the address's pool, not network-unavailable, not excluded (unless
+// ignored), the Service has a serving endpoint, under Local the node hosts one; the announcer is the
+// eligible node with the smallest sha256(node#first address). This node must hold the Service's addresses
+// iff it is that node (and some selecting advertisement names an interface that exists, or none).
+func (sb *sbox) quiescentC04() {
+	c := sb.c
+	if sb.ctl.config == nil {
+		return
+	}
+	s := sb.k.Store
+	model := vfModelPools(sboxPools(s), nil)
+	st := sb.l2.A.VerifSnapshot()
+	var universe []string
+	if sb.slist.disabled {
+		for _, k := range vfSortedKeys(s.Nodes) {
+			universe = append(universe, s.Nodes[k].Name)
+		}
+	} else {
+		for _, n := range vfSortedKeys(sb.slist.members) {
+			if sb.slist.members[n] {
+				universe = append(universe, n)
+			}
+		}
+	}
+	nodeOf := func(name string) *v1.Node {
+		for _, k := range vfSortedKeys(s.Nodes) {
+			if s.Nodes[k].Name == name {
+				return s.Nodes[k]
+			}
+		}
+		return nil
+	}
+	for _, key := range vfSortedKeys(s.Services) {
+		svc := s.Services[key]
+		var ips []string
+		valid := svc.Spec.Type == v1.ServiceTypeLoadBalancer
+		for _, ing := range svc.Status.LoadBalancer.Ingress {
+			cip, _, ok := vfCanonIP(ing.IP)
+			if !ok {
+				valid = false
+			}
+			ips = append(ips, cip)
+		}
+		_, held := st.IPs[key]
+		if !valid || len(ips) == 0 {
+			c.Eval()
+			if held {
+				c.Violation("l2:holds-a-service-without-usable-addresses"+sb.causeSuffix(), fmt.Sprintf("%s (type %s, status %v) is held by the layer-2 announcer", key, svc.Spec.Type, ips), sb.dump())
+			}
+			continue
+		}
+		pn := vfPoolOf(model, ips)
+		var pool *metallbv1beta1.IPAddressPool
+		for _, k := range vfSortedKeys(s.Pools) {
+			if s.Pools[k].Name == pn {
+				pool = s.Pools[k]
+			}
+		}
+		if pool == nil {
+			c.Eval()
+			if held {
+				c.Violation("l2:holds-addresses-outside-every-pool"+sb.causeSuffix(), fmt.Sprintf("%s status %v lies in no single pool but is held by the layer-2 announcer", key, ips), sb.dump())
+			}
+			continue
+		}
+		slices := sb.slicesOf(svc)
+		anyServing := false
+		local := map[string]bool{}
+		for _, sl := range slices {
+			for _, ep := range sl.Endpoints {
+				if !sboxCanServe(ep.Conditions) {
+					continue
+				}
+				anyServing = true
+				if ep.NodeName != nil {
+					local[*ep.NodeName] = true
+				}
+			}
+		}
+		var eligible []string
+		for _, n := range universe {
+			node := nodeOf(n)
+			if node != nil && sboxNodeUnavail(node) {
+				continue
+			}
+			if node != nil && !sb.ignoreExcludeLB && sboxNodeExcluded(node) {
+				continue
+			}
+			selected := false
+			if node != nil {
+				for _, k := range vfSortedKeys(s.L2Advs) {
+					adv := s.L2Advs[k]
+					if sboxAdvSelectsPool(adv.Spec.IPAddressPools, adv.Spec.IPAddressPoolSelectors, pool) && sboxSelMatch(adv.Spec.NodeSelectors, node.Labels) {
+						selected = true
+					}
+				}
+			}
+			if !selected || !anyServing {
+				continue
+			}
+			if svc.Spec.ExternalTrafficPolicy == v1.ServiceExternalTrafficPolicyTypeLocal && !local[n] {
+				continue
+			}
+			eligible = append(eligible, n)
+		}
+		want := ""
+		if len(eligible) > 0 {
+			want = sboxElect(eligible, ips[0])
+		}
+		// the scope this node would use (as in quiescentC13): no existing interface => nothing is held
+		usable := false
+		if me := nodeOf(sboxMyNode); me != nil {
+			for _, k := range vfSortedKeys(s.L2Advs) {
+				adv := s.L2Advs[k]
+				if !sboxAdvSelectsPool(adv.Spec.IPAddressPools, adv.Spec.IPAddressPoolSelectors, pool) || !sboxSelMatch(adv.Spec.NodeSelectors, me.Labels) {
+					continue
+				}
+				if len(adv.Spec.Interfaces) == 0 || sboxHas(adv.Spec.Interfaces, "eth0") || sboxHas(adv.Spec.Interfaces, "eth1") {
+					usable = true
+				}
+			}
+		}
+		c.Eval()
+		c.Count("l2-decisions-compared")
+		if len(eligible) > 1 {
+			c.Nontrivial(fmt.Sprintf("%v|%s|%s", eligible, ips[0], svc.Spec.ExternalTrafficPolicy))
+		}
+		switch {
+		case held && want != sboxMyNode:
+			c.Violation("l2:announces-without-being-the-elected-node"+sb.causeSuffix(), fmt.Sprintf("this node (%s) holds %s %v; eligible nodes %v, elected (smallest sha256(node#%s)): %q", sboxMyNode, key, ips, eligible, ips[0], want), sb.dump())
+		case !held && want == sboxMyNode && usable:
+			c.Violation("l2:elected-node-does-not-announce"+sb.causeSuffix(), fmt.Sprintf("this node (%s) is the elected announcer of %s %v among %v but holds nothing", sboxMyNode, key, ips, eligible), sb.dump())
+		}
+	}
+}
+
+// sboxElect: the documented election, smallest sha256(node + "#" + first address).
+func sboxElect(names []string, firstIP string) string {
+	best, bestH := "", ""
+	for _, n := range names {
+		sum := sha256.Sum256([]byte(n + "#" + firstIP))
+		h := hex.EncodeToString(sum[:])
+		if bestH == "" || h < bestH {
+			best, bestH = n, h
+		}
+	}
+	return best
 }
